@@ -136,6 +136,7 @@ CallEnd(i) ==
 
 Store(i) ==
   /\ w[i].pc = "prestore"
+  /\ Broken = "commitwaitsreaders" => \A j \in Readers : rd[j].pc # "loaded"      \* wrong variant: drain the readers first
   /\ hist' = Append(hist, w[i].work)
   /\ w' = [w EXCEPT ![i].pc = "stored"]
   /\ op' = Obs("w", i, "Store", <<>>, <<>>)
@@ -230,6 +231,14 @@ ReadsNeverWait ==
   \A j \in Readers :
      /\ (rd[j].pc = "idle" /\ rd[j].n < MaxReads) => \A c \in ReadCalls : ENABLED RLoad(j, c)
      /\ rd[j].pc = "loaded" => ENABLED RReturn(j)
+
+\* C06, second sentence: a writer waits only for the writer lock. Whatever the readers are doing (in particular a read
+\* that never returns: a Lookup context never closed, an iterator never finished), a writer that is not queued behind
+\* the lock can take its next step, and a queued one can as soon as the lock is free.
+WritersWaitOnlyForWriters ==
+  \A i \in Writers :
+     /\ w[i].pc = "waiting" => (ENABLED Acquire(i) <=> lock = 0)
+     /\ w[i].pc \in {"locked", "open", "prestore", "stored", "aborting", "unlocked"} => ENABLED WriterStep(i)
 
 \* C06 liveness: a started read completes although no writer step is ever taken again
 ReaderProgress == \A j \in Readers : (rd[j].pc = "loaded") ~> (rd[j].pc = "idle")
